@@ -116,6 +116,9 @@ class FelicaStandard(tt3.Type3Tag):
             # and reads all block data if there is one service that
             # does not require a key. First we figure out the common
             # service type and which access modes are available.
+            service_type = "Type {0:04b}b".format(services[0] >> 2 & 0b1111)
+            access_types = " & ".join([
+                "{0:02b}b".format(x & 3) for x in services])
             if services[0] >> 2 & 0b1111 == 0b0010:
                 service_type = "Random"
                 access_types = " & ".join([(
